@@ -248,7 +248,13 @@ def get_input_data(world: World, sim: SimRunner) -> InputData:
             attrs_old,
         ),
         input_data,
-        sim.persistent_inputs,
+        # Merge a copy (of the three dict levels mosaik controls):
+        # merge_all inserts missing sub-dicts of its second argument
+        # by reference, and input_data is modified below.
+        {
+            eid: {attr: dict(vals) for attr, vals in attrs.items()}
+            for eid, attrs in sim.persistent_inputs.items()
+        },
     )
     # Merge in pushed inputs from the timed input buffer
     input_data = sim.timed_input_buffer.get_input(input_data, sim.current_step.time)
